@@ -25,8 +25,9 @@ REQ2 = wo.request(b"/ok")
 
 
 class Slot:
-    def __init__(self, id, kind, call, typ="str", mode="web", finishes=False, value_free=False):
+    def __init__(self, id, kind, call, typ="str", mode="web", finishes=False, value_free=False, twin_call=None):
         self.id, self.kind, self.call, self.typ = id, kind, call, typ
+        self.twin_call = twin_call      # how the harmless twin reaches the same field when this slot refuses every string
         self.mode, self.finishes, self.value_free = mode, finishes, value_free
         # violation signature family: one defect = one signature
         fam = id.replace("[bytes]", "")
@@ -79,6 +80,9 @@ SLOTS = [
          lambda h, x: h.set_cookie("a", "v", SameSite=x)),
     Slot("set_cookie.kwargs.Expires", "ck.attr:expires",
          lambda h, x: h.set_cookie("a", "v", Expires=x)),
+    Slot("set_cookie.expires[str]", "ck.attr:expires", lambda h, x: h.set_cookie("a", "v", expires=x),
+         twin_call=lambda h, x: h.set_cookie("a", "v", Expires=x)),
+    Slot("set_cookie.max_age[str]", "ck.attr:max-age", lambda h, x: h.set_cookie("a", "v", max_age=x)),
     Slot("set_cookie.kwargs.Max-Age", "ck.attr:max-age",
          lambda h, x: h.set_cookie("a", "v", **{"Max-Age": x})),
     Slot("clear_cookie.name", "ck.name", lambda h, x: h.clear_cookie(x)),
@@ -413,7 +417,10 @@ class Context:
         self.box = Box()
         self.app = build_web_app(self.box) if slot.mode == "web" else build_raw_app(self.box)
         self.x0 = twin_of(slot, form)
-        self.twin = observe(self.app, self.box, (slot, self.x0))
+        tslot = slot
+        if slot.twin_call is not None:
+            tslot = Slot(slot.id, slot.kind, slot.twin_call, slot.typ, slot.mode, slot.finishes, slot.value_free)
+        self.twin = observe(self.app, self.box, (tslot, self.x0))
         self.rej = observe(self.app, self.box, "raise")
         for ob, what in ((self.twin, "twin"), (self.rej, "rejection twin")):
             if ob.p1 or ob.r1 is None or not ob.outs[1] or ob.closed:
@@ -437,8 +444,8 @@ class C07(Check):
     rule = ("every string of length <= 2 (quick) / <= 3 (thorough) over {CR LF NUL SP HTAB : ; , \" DEL "
             "0x80 0xFF U+0100 U+2028 a} (bytes slots: the 13 single-byte symbols), plus length 3 "
             "(quick) / 4 (thorough) over {CR LF NUL : ; U+0100 a}, each alone and embedded as ok<s>ok, "
-            "through each of 30 API slots (set_header/add_header name+value str/bytes, set_status / "
-            "HTTPError / send_error reason, redirect url, set_cookie name/value/domain/path/samesite/"
+            "through each of 32 API slots (set_header/add_header name+value str/bytes, set_status / "
+            "HTTPError / send_error reason, redirect url, set_cookie name/value/domain/path/samesite/expires/max_age/"
             "legacy kwargs, clear_cookie, set_signed_cookie name, HTTPConnection.write_headers "
             "reason/name/value) in a real Application/HTTPServer; request followed by a second "
             "request on the same connection; wire bytes read by a strict RFC 9112 reader and "
